@@ -632,8 +632,10 @@ impl Monitor {
     /// earlier in this history.
     pub fn classify(&self, out: &Out) -> Option<&'static str> {
         if let Out::Panic(ql::items::Pk::Other(m)) = out {
+            // (the assertion also fires for a function without cycle handling that took part in
+            // the iteration of a fixpoint cycle, hence the test on the program, not on the name)
             if m.contains("returned the same value, but the previous execution changed at")
-                && (m.contains("query fx(") || m.contains("query fxj(") || m.contains("query fb("))
+                && self.prog.nodes.iter().any(|n| matches!(n.kind, Kind::Fx | Kind::Fxj | Kind::Fb))
             {
                 return Some("cycle-backdate-assert");
             }
